@@ -8,6 +8,8 @@ C05 protocol handler.
   (out <id> (m <model>) (mv <model>) (tag <branch>) (wf 0|1) (spec C05 0|1) (spec C05v 0|1) (spec OWS 0|1)
        (owseq 0|1) (class F07 0|1) (class F07b 0|1) (classv F07 0|1) (classv F07b 0|1) (best <hex>|none))
     model  (r406) | (e406) | (w <hex>…)   the possible writers
+    class F07b = class of the open finding; class F07 = class of the finding repaired by d89a7d4, kept
+    as a coverage class (a failing case inside it is a violation like any other)
 -/
 import Restful.Driver.SExp
 import Restful.Model.Mime
@@ -47,7 +49,8 @@ def mimeTag (a : Str) (P reg : List Str) (d : Str) : String :=
     let pieces := Str.split ',' a
     let valid := (pieces.filterMap rangeOf).length
     let b := (entityWriterTagged a P reg d).2
-    let star := if b == .walk && !((entityWriter a P reg d).all (fun w => (sortedMimes a).any (fun m => m.media == w))) then "-star" else ""
+    let ranked := sortedMimes (if a.isEmpty then starStar else a) -- what EntityWriter walks (response.go:85-90)
+    let star := if b == .walk && !((entityWriter a P reg d).all (fun w => ranked.any (fun m => m.media == w))) then "-star" else ""
     s!"{branchName b}{star}-{min valid 4}" ++ (if valid < pieces.length then "-dropped" else "")
 
 def bit (b : Bool) : String := if b then "1" else "0"
